@@ -195,8 +195,8 @@ var baseRoots = []string{"/", "/a", "/a/b", "/{r}", "/a/{r}"}
 var baseSegs = []string{"a", "b", "7", "ab", "x.js", "a.js", "a:go", "7:go", "", "pre_z", "é{x}"}
 
 // JSR311 documents literals, {v}, {v:regex} and the tail wildcard only.
-var jsrTokens = []string{"a", "b", "{x}", "{y}", "{n:[0-9]+}", "{w:[a-z]}", "{t:*}"}
-var jsrSegs = []string{"a", "b", "7", "ab", "x.js", ""}
+var jsrTokens = []string{"a", "b", "{x}", "{y}", "{n:[0-9]+}", "{w:[a-z]}", "{t:*}", "{g:[a-z]+(x7)?}"}
+var jsrSegs = []string{"a", "b", "7", "ab", "x.js", "", "abx7"}
 
 // PathUniverse returns the universe of a path sweep for a router and tier. small selects the
 // halved alphabets used for multi-route tables. Sizes are chosen so that a quick check stays
